@@ -2,6 +2,7 @@
 
 Also holds the E3 helpers shared with props/C10.py (driver run with the encoding/json oracle loop,
 the direct limit oracle evaluated on the implementation's own answers)."""
+import json
 import os
 import re
 import struct
@@ -163,6 +164,23 @@ def first_command_fail(op, impl, conf):
     ans = replies[pre_ok] if len(replies) > pre_ok else None
     if pre_ok and (not replies or replies[0] != "OK"):
         return None
+    if ps[0] == b"IDENTIFY" and not pre_ok and ans in ("OK", "JSON") and len(after) >= 4:
+        n = struct.unpack(">i", after[:4])[0]
+        try:
+            d = json.loads(after[4:4 + n].decode("utf-8")) if 0 < n <= len(after) - 4 else None
+        except Exception:
+            d = None
+        if isinstance(d, dict):
+            rng = {"heartbeat_interval": ((-1, 0), 1000, conf["maxHbMs"]),
+                   "output_buffer_timeout": ((-1, 0), conf["minObtMs"], conf["maxObtMs"]),
+                   "output_buffer_size": ((-1, 0), 64, conf["maxObSize"]),
+                   "msg_timeout": ((0,), 1000, conf["maxMtMs"]),
+                   "sample_rate": ((), 0, 99)}
+            for k, (special, lo, hi) in rng.items():
+                v = d.get(k)
+                if isinstance(v, int) and not isinstance(v, bool) and v not in special and not lo <= v <= hi:
+                    return "identify-range", "IDENTIFY %s=%d accepted (documented: %s or %d..%d)" % (
+                        k, v, list(special), lo, hi)
     if ps[0] == b"DPUB" and len(ps) >= 3 and ps[2].isdigit() and ans == "OK":
         if int(ps[2]) * 10**6 > conf["maxReqNs"] and conf["maxReqNs"] < 2**63 - 1:
             return "numeric-overflow", "DPUB delay %s ms accepted (max-req-timeout %d ns)" % (ps[2].decode(), conf["maxReqNs"])
@@ -325,8 +343,9 @@ def harness_lines(ctx, out, label):
     hist = {}
     for l in out.splitlines():
         if l.startswith("HIST "):
-            _, k, v = l.split()
-            hist[k] = int(v)
+            parts = l.split()
+            if len(parts) == 3 and parts[2].isdigit():
+                hist[parts[1]] = int(parts[2])
     ctx.corr.setdefault("histogram", {})[label] = hist
     fails = [l for l in out.splitlines() if l.startswith("ORACLE-FAIL")]
     okl = [l for l in out.splitlines() if l.startswith("ORACLE-OK")]
@@ -334,9 +353,14 @@ def harness_lines(ctx, out, label):
 
 
 def report_oracle_fail(ctx, line):
-    m = re.match(r"ORACLE-FAIL key=(\S+) (?:stream|req)=(\S+) (?:conf=\S+ )?what=(.*)", line)
+    m = re.match(r"ORACLE-FAIL key=(\S+) (stream|req)=(\S+) (?:conf=(\S+) )?what=(.*)", line)
     if m:
-        ctx.violation(m.group(1), m.group(3)[:400], "harness oracle failure\n%s\n" % line)
+        replay = "# %s\n" % line[:600]
+        if m.group(2) == "stream" and m.group(4) and m.group(3) != "-":
+            replay += "reset\nio %s %s\n" % (m.group(4), m.group(3))      # replayable: ./check C09 --replay <this file>
+        elif m.group(2) == "req" and m.group(3).startswith("http"):
+            replay += "reset\n%s\n" % m.group(3)
+        ctx.violation(m.group(1), m.group(5)[:400], replay)
     else:
         ctx.violation("harness-oracle", line[:400], line + "\n")
 
@@ -502,8 +526,12 @@ def run(ctx):
             ctx.log("corr harness failed (rc=%s):\n%s" % (rc, out[-3000:]))
             corr_broken.append("corr harness exit %s" % rc)
             if "panic:" in out or "fatal error:" in out:
-                ctx.violation("panic", "the nsqd process died while serving generated TCP input",
-                              out[-4000:])
+                last = os.path.join(ctx.work, "last.ops")
+                lastops = open(last).read() if os.path.exists(last) else ""
+                pl = [l for l in out.splitlines() if l.startswith("panic:") or l.startswith("fatal error:")]
+                ctx.violation("panic", "the nsqd process died while serving this connection: %s" % (pl[0][:200] if pl else ""),
+                              "# the daemon (test process) died; last connection served:\n%s# output tail:\n# %s\n" % (
+                                  lastops, "\n# ".join(out[-1500:].splitlines())))
         opsf = os.path.join(ctx.work, "proto.ops")
         if os.path.exists(opsf):
             ops = open(opsf).read().splitlines()
